@@ -110,6 +110,7 @@ func resultValueAt(ret *ssa.Return, idx int) ssa.Value {
 }
 
 func runC41(c *core.Ctx) {
+	checkOneCommitPerCommitter(c)
 	// ---------- insert
 	if fn := c.Fn(pkVbft, "BlockPool.addBlockEndorsementLocked"); fn != nil {
 		var endorserP, sigP, commitP *ssa.Parameter
